@@ -46,7 +46,7 @@ def gen_cases(seed, tier):
     n = 300 if tier == 'quick' else 30000
     cases = []
     for i in range(n):
-        start = STARTS[i % len(STARTS)]
+        start = common.stratum(i, 1, STARTS)
         fchans = int(common.pick(rng, [1, 2, 3, 8, 64, 256, 512])) if rng.random() < 0.3 else int(rng.integers(4, 300))
         tchans = int(common.pick(rng, [1, 2, 16, 32])) if rng.random() < 0.4 else int(rng.integers(1, 33))
         df = float(common.pick(rng, common.UGLY_DF)) if rng.random() < 0.7 else float(10 ** rng.uniform(-1, 5))
@@ -60,10 +60,10 @@ def gen_cases(seed, tier):
             o = OPS[int(rng.integers(len(OPS)))]
             ops.append(dict(op=o, a=float(rng.random()), b=float(rng.random())))
         # make sure every op kind is reached regardless of seed
-        ops.insert(0, dict(op=OPS[i % len(OPS)], a=float(rng.random()), b=float(rng.random())))
-        cases.append(dict(start=start, asc=bool((i // len(STARTS)) % 2), fchans=fchans, tchans=tchans, df=df, dt=dt, fch1=fch1,
+        ops.insert(0, dict(op=common.stratum(i, 2, OPS), a=float(rng.random()), b=float(rng.random())))
+        cases.append(dict(start=start, asc=bool(common.stratum(i, 3, 2)), fchans=fchans, tchans=tchans, df=df, dt=dt, fch1=fch1,
                           ops=ops, name=str(common.pick(rng, ['Synthetic', 'VOYAGER-1', 'TIC 141146667 b', 'x', 'A_long_source_name_0123456789'])),
-                          mjd=float(58000 + rng.uniform(0, 3000)), helper=bool(i % 10 == 0), sub=int(rng.integers(2 ** 31))))
+                          mjd=float(58000 + rng.uniform(0, 3000)), helper=bool(common.stratum(i, 4, 10) == 0), sub=int(rng.integers(2 ** 31))))
     return cases
 
 
